@@ -177,6 +177,18 @@ pub fn sigma_cls(l: L) -> Vec<String> {
     if let Some(x) = c.compound {
         v.push(x);
     }
+    // a unit glued to a scale word (hyphen group or compound word)
+    let sc: Option<&str> = match l {
+        L::En => Some("five-thousand"),
+        L::Fr => Some("cinq-mille"),
+        L::It => Some("cinquemila"),
+        L::De => Some("fünftausend"),
+        L::Nl => Some("vijfduizend"),
+        _ => None,
+    };
+    if let Some(x) = sc {
+        v.push(x.to_string());
+    }
     let mut out: Vec<String> = vec![];
     for w in v {
         if !out.contains(&w) {
